@@ -2,6 +2,8 @@ package main
 
 import (
 	"fmt"
+	"math/rand"
+	"strconv"
 	"time"
 
 	"github.com/evolbioinfo/gotree/tree"
@@ -11,10 +13,67 @@ func init() { register("C08", c08) }
 
 // case: ((op compare|weighted) (t1 T) (t2s (T ...)) (tips T|F) (ident T|F))     a STREAM of compared trees, one call, cpus=1
 //       ((op common) (t1 T) (t2 T) (tips T|F) (ident F))
+//       optional (pre1 E) (pres (E ...)): pre-used trees, see preUse; the observation then carries
+//       (t1after T) (t2after (T ...)) (audit (..)): the trees as they are at comparison time
 // obs : ((err "msg") (stats (((id i) (tree1 n) (tree2 n) (common n) (same T|F) (serr "msg")) ...)))           compare
 //       ((err "msg") (wstats (((id i) (tree1 (q..)) (tree2 (q..)) (common (q..)) (same T|F) (serr "msg")) ...)))  weighted
 //       ((err "msg") (tree1 n) (common n))                                                      common
 //       ((hang T))   when the stats channel was not closed within 8 s
+// preUse puts a tree in the state of a tree that was used before: indexed (ReinitIndexes), then
+// modified through a public edit that does not (completely) re-index it.  The edit is
+//   (none) | (rename "a" "b") | (setname "a" "b") | (reroot i) | (rotate seed) | (unroot)
+// (none) leaves the freshly built tree untouched (not even indexed).
+func preUse(t *tree.Tree, e *Sexp) string {
+	if e == nil || !e.IsList || len(e.List) == 0 || e.List[0].Atom == "none" {
+		return ""
+	}
+	if err := t.ReinitIndexes(); err != nil {
+		return "reinit: " + err.Error()
+	}
+	arg := func(i int) string {
+		if i < len(e.List) {
+			return e.List[i].Atom
+		}
+		return ""
+	}
+	switch e.List[0].Atom {
+	case "rename":
+		if err := t.Rename(map[string]string{arg(1): arg(2), arg(2): arg(1)}); err != nil {
+			return "rename: " + err.Error()
+		}
+	case "setname":
+		var na, nb *tree.Node
+		for _, n := range t.Tips() {
+			if n.Name() == arg(1) {
+				na = n
+			} else if n.Name() == arg(2) {
+				nb = n
+			}
+		}
+		if na != nil && nb != nil {
+			na.SetName(arg(2))
+			nb.SetName(arg(1))
+		}
+	case "reroot":
+		i, _ := strconv.Atoi(arg(1))
+		nodes := t.Nodes()
+		if i < len(nodes) {
+			if err := t.Reroot(nodes[i]); err != nil {
+				return ""
+			}
+		}
+	case "rotate":
+		seed, _ := strconv.ParseInt(arg(1), 10, 64)
+		rand.Seed(seed)
+		t.RotateInternalNodes()
+	case "unroot":
+		t.UnRoot()
+	default:
+		return "unknown edit " + e.List[0].Atom
+	}
+	return ""
+}
+
 func c08(c *Sexp) *Sexp {
 	t1, err := BuildTree(c.Get("t1"))
 	if err != nil {
@@ -33,10 +92,44 @@ func c08(c *Sexp) *Sexp {
 			t2s = append(t2s, t)
 		}
 	}
+	// pre-used trees: (pre1 E) for the reference, (pres (E ...)) for the compared trees
+	after := L()
+	problems := []string{}
+	if m := preUse(t1, c.Get("pre1")); m != "" {
+		return L(KV("panic", A("pre1: "+m)))
+	}
+	if pres := c.Get("pres"); pres != nil && pres.IsList {
+		for i, e := range pres.List {
+			if i < len(t2s) {
+				if m := preUse(t2s[i], e); m != "" {
+					return L(KV("panic", A(fmt.Sprintf("pres[%d]: %s", i, m))))
+				}
+			}
+		}
+	}
+	hasPre := c.Get("pre1") != nil || c.Get("pres") != nil
+	if hasPre {
+		// the trees as they are at comparison time (read through Neigh()/Edges() only)
+		after.List = append(after.List, KV("t1after", DumpTree(t1, &problems)))
+		l := L()
+		for _, t := range t2s {
+			l.List = append(l.List, DumpTree(t, &problems))
+		}
+		after.List = append(after.List, KV("t2after", l), KV("audit", Strs(problems)))
+	}
 	if op == "common" {
 		t2, err := BuildTree(c.Get("t2"))
 		if err != nil {
 			return L(KV("panic", A("build t2: "+err.Error())))
+		}
+		if pres := c.Get("pres"); pres != nil && pres.IsList && len(pres.List) > 0 {
+			if m := preUse(t2, pres.List[0]); m != "" {
+				return L(KV("panic", A("pres[0]: "+m)))
+			}
+		}
+		if hasPre {
+			problems = []string{}
+			after = L(KV("t1after", DumpTree(t1, &problems)), KV("t2after", L(DumpTree(t2, &problems))), KV("audit", Strs(problems)))
 		}
 		if e := t1.ReinitIndexes(); e != nil {
 			return L(KV("err", A("reinit t1: "+e.Error())))
@@ -45,7 +138,9 @@ func c08(c *Sexp) *Sexp {
 			return L(KV("err", A("reinit t2: "+e.Error())))
 		}
 		tr1, com, e := t1.CommonEdges(t2, tips)
-		return L(KV("err", A(errStr(e))), KV("tree1", I(tr1)), KV("common", I(com)))
+		r := L(KV("err", A(errStr(e))), KV("tree1", I(tr1)), KV("common", I(com)))
+		r.List = append(r.List, after.List...)
+		return r
 	}
 	done := make(chan *Sexp, 1)
 	go func() {
@@ -71,7 +166,9 @@ func c08(c *Sexp) *Sexp {
 				recs.List = append(recs.List, L(KV("id", I(st.Id)), KV("tree1", I(st.Tree1)), KV("tree2", I(st.Tree2)), KV("common", I(st.Common)),
 					KV("same", B(st.Sametree)), KV("serr", A(errStr(st.Err)))))
 			}
-			done <- L(KV("err", A("")), KV("stats", recs))
+			r := L(KV("err", A("")), KV("stats", recs))
+			r.List = append(r.List, after.List...)
+			done <- r
 		case "weighted":
 			stats, e := tree.CompareWeighted(t1, ch, tips, ident, 1)
 			if e != nil {
@@ -90,7 +187,9 @@ func c08(c *Sexp) *Sexp {
 				recs.List = append(recs.List, L(KV("id", I(st.Id)), KV("tree1", fl(st.Tree1)), KV("tree2", fl(st.Tree2)), KV("common", fl(st.Common)),
 					KV("same", B(st.Sametree)), KV("serr", A(errStr(st.Err)))))
 			}
-			done <- L(KV("err", A("")), KV("wstats", recs))
+			r := L(KV("err", A("")), KV("wstats", recs))
+			r.List = append(r.List, after.List...)
+			done <- r
 		default:
 			done <- L(KV("panic", A("unknown op")))
 		}
